@@ -101,7 +101,9 @@ _spaces = None
 def run_variant(fn_maker, cb, label):
     with stubs.prng_stubs():
         tr = fn_maker(cb, label)
-    it = Interp()
+    # is_finite of a symbolic term is an uninterpreted predicate here: a carried state (an observer's in particular) may hold NaN / inf sentinels,
+    # and whether the trained policy depends on THAT is part of the obligation
+    it = Interp(nonfinite_terms=True)
     S = tr.symbols(it, given=_spaces(tr, it) if _spaces else None)
     out = tr.run(it, S)
     return tr, it, S, out
@@ -144,9 +146,10 @@ def check_algo(ck, aname, algo, env, mkpol):
             def rp(res, tr0=tr0, tr1=tr1, S0=S0, S1=S1, it0=it0, it1=it1, names=names):
                 keys = concrete.KeyBinding(res)
                 w = concrete.ModelWorld(res, it0.uf_apps + it1.uf_apps, keys)
+                leaf = lambda Sx, m, av: concrete.with_nonfinite(res, Sx[m], concrete.model_leaf(res, Sx[m], av, keys)) if not concrete.is_keyaval(av) else concrete.model_leaf(res, Sx[m], av, keys)
                 with stubs.prng_stubs():
-                    r0 = dict(zip(tr0.out_names, concrete.run_real(tr0, [concrete.model_leaf(res, S0[m], av, keys) for m, av in zip(tr0.in_names, tr0.in_avals)], w)))
-                    r1 = dict(zip(tr1.out_names, concrete.run_real(tr1, [concrete.model_leaf(res, S1[m], av, keys) for m, av in zip(tr1.in_names, tr1.in_avals)], w)))
+                    r0 = dict(zip(tr0.out_names, concrete.run_real(tr0, [leaf(S0, m, av) for m, av in zip(tr0.in_names, tr0.in_avals)], w)))
+                    r1 = dict(zip(tr1.out_names, concrete.run_real(tr1, [leaf(S1, m, av) for m, av in zip(tr1.in_names, tr1.in_avals)], w)))
                 diffs = [n for n in names if n in r0 and n in r1 and not np.allclose(concrete.real_to_float(r0[n]), concrete.real_to_float(r1[n]), rtol=1e-4, atol=1e-5, equal_nan=True)]
                 world_used = "interpretation of the uninterpreted functions taken from the solver model"
                 if not diffs:
@@ -154,8 +157,8 @@ def check_algo(ck, aname, algo, env, mkpol):
                     from jaxsmt.uf import GenericWorld
                     for sd in range(3):
                         with stubs.prng_stubs():
-                            v0 = [concrete.model_leaf(res, S0[m], av, keys) for m, av in zip(tr0.in_names, tr0.in_avals)]
-                            v1 = [concrete.model_leaf(res, S1[m], av, keys) for m, av in zip(tr1.in_names, tr1.in_avals)]
+                            v0 = [leaf(S0, m, av) for m, av in zip(tr0.in_names, tr0.in_avals)]
+                            v1 = [leaf(S1, m, av) for m, av in zip(tr1.in_names, tr1.in_avals)]
                             r0 = dict(zip(tr0.out_names, concrete.run_real(tr0, v0, GenericWorld(seed=100 + sd))))
                             r1 = dict(zip(tr1.out_names, concrete.run_real(tr1, v1, GenericWorld(seed=100 + sd))))
                         diffs = [n for n in names if n in r0 and n in r1 and not np.allclose(concrete.real_to_float(r0[n]), concrete.real_to_float(r1[n]), rtol=1e-4, atol=1e-5, equal_nan=True)]
@@ -181,8 +184,12 @@ def check_algo(ck, aname, algo, env, mkpol):
             if len(ck.inconclusive) >= 6:
                 ck.skip(f"observer.{aname}.{phase}.{cname}", "skipped: six observer obligations are already inconclusive in this run")
                 continue
+            # ... and, for the counterexample search only, everything the run WITHOUT the observer tests for finiteness is finite (a non-finite
+            # environment / optimiser state derails both runs alike; what matters is a non-finite value that only the observer carries)
+            from jaxsmt import solve as _solve
+            fin0 = [a for a in _solve.collect_apps([x for n in differing[:4] for x in np.asarray(out0[n], dtype=object).reshape(-1) if isinstance(x, z3.ExprRef)]) if a.decl().name() == "FIN"]
             for n in differing[:4]:
-                ck.prove(f"observer.{aname}.{phase}.{cname}:{n}", A, goals[n], replay=rp, timeout=10 if not ck.thorough else 60, sample=False, search_hints=zero)
+                ck.prove(f"observer.{aname}.{phase}.{cname}:{n}", A, goals[n], replay=rp, timeout=10 if not ck.thorough else 60, sample=False, search_hints=zero + fin0)
                 if len(ck.violations) + len(ck.known_hits) > nv:
                     break
     # key sensitivity (vacuity-style witness): an implementation that ignores its key makes this unsat
